@@ -18,3 +18,7 @@ Theorem C10_module_state_ok : forallb module_state_ok module_state = true.
 Proof. vm_compute. reflexivity. Qed.
 Theorem C10_default_args_ok : forallb default_arg_ok default_args = true.
 Proof. vm_compute. reflexivity. Qed.
+(* nothing the caller handed in (Params, problem, arrays) is written in place: a mutated Params would make the next
+   solve with the same object, or with the shared default, a different computation *)
+Theorem C10_inplace_ops_ok : forallb inplace_ok inplace_ops = true.
+Proof. vm_compute. reflexivity. Qed.
